@@ -48,8 +48,8 @@ extern size_t carquet_zstd_compress_bound(size_t src_size);
 
 typedef struct carquet_page_writer {
     carquet_buffer_t values_buffer;      /* Encoded values */
-    carquet_buffer_t def_levels_buffer;  /* Definition levels (RLE) */
-    carquet_buffer_t rep_levels_buffer;  /* Repetition levels (RLE) */
+    carquet_buffer_t def_levels_buffer;  /* Definition levels of the page (raw int16, RLE-encoded at finalize) */
+    carquet_buffer_t rep_levels_buffer;  /* Repetition levels of the page (raw int16, RLE-encoded at finalize) */
     carquet_buffer_t page_buffer;        /* Final page with header */
 
     carquet_physical_type_t type;
@@ -198,6 +198,23 @@ static carquet_status_t encode_levels(
     return CARQUET_OK;
 }
 
+/* Append raw levels of one batch; levels == NULL means `fill` for every row. */
+static carquet_status_t append_levels(
+    carquet_buffer_t* buffer,
+    const int16_t* levels,
+    int64_t count,
+    int16_t fill) {
+
+    if (levels) {
+        return carquet_buffer_append(buffer, levels, (size_t)count * sizeof(int16_t));
+    }
+    for (int64_t i = 0; i < count; i++) {
+        carquet_status_t status = carquet_buffer_append(buffer, &fill, sizeof(fill));
+        if (status != CARQUET_OK) return status;
+    }
+    return CARQUET_OK;
+}
+
 /* ============================================================================
  * Statistics Tracking
  * ============================================================================
@@ -307,16 +324,19 @@ carquet_status_t carquet_page_writer_add_values(
         writer->num_nulls += (num_values - num_non_null);
     }
 
-    /* Encode definition levels */
-    if (writer->max_def_level > 0 && def_levels) {
-        encode_levels(def_levels, num_values, writer->max_def_level,
-                      &writer->def_levels_buffer);
+    /* Accumulate the levels of this batch. A data page carries exactly one
+     * level block per level kind, so the levels of all batches that end up in
+     * the same page are RLE-encoded together when the page is finalized.
+     * Without definition levels every row of the batch is present. */
+    if (writer->max_def_level > 0) {
+        carquet_status_t lstatus = append_levels(&writer->def_levels_buffer, def_levels,
+                                                  num_values, writer->max_def_level);
+        if (lstatus != CARQUET_OK) return lstatus;
     }
-
-    /* Encode repetition levels */
-    if (writer->max_rep_level > 0 && rep_levels) {
-        encode_levels(rep_levels, num_values, writer->max_rep_level,
-                      &writer->rep_levels_buffer);
+    if (writer->max_rep_level > 0) {
+        carquet_status_t lstatus = append_levels(&writer->rep_levels_buffer, rep_levels,
+                                                  num_values, 0);
+        if (lstatus != CARQUET_OK) return lstatus;
     }
 
     /* Encode values using PLAIN encoding.
@@ -486,15 +506,25 @@ carquet_status_t carquet_page_writer_finalize(
     carquet_buffer_init(&uncompressed);
 
     if (writer->rep_levels_buffer.size > 0) {
-        carquet_buffer_append(&uncompressed,
-                               writer->rep_levels_buffer.data,
-                               writer->rep_levels_buffer.size);
+        carquet_status_t lstatus = encode_levels(
+            (const int16_t*)writer->rep_levels_buffer.data,
+            (int64_t)(writer->rep_levels_buffer.size / sizeof(int16_t)),
+            writer->max_rep_level, &uncompressed);
+        if (lstatus != CARQUET_OK) {
+            carquet_buffer_destroy(&uncompressed);
+            return lstatus;
+        }
     }
 
     if (writer->def_levels_buffer.size > 0) {
-        carquet_buffer_append(&uncompressed,
-                               writer->def_levels_buffer.data,
-                               writer->def_levels_buffer.size);
+        carquet_status_t lstatus = encode_levels(
+            (const int16_t*)writer->def_levels_buffer.data,
+            (int64_t)(writer->def_levels_buffer.size / sizeof(int16_t)),
+            writer->max_def_level, &uncompressed);
+        if (lstatus != CARQUET_OK) {
+            carquet_buffer_destroy(&uncompressed);
+            return lstatus;
+        }
     }
 
     carquet_buffer_append(&uncompressed,
